@@ -94,7 +94,7 @@ def run(ctx):
     tmpd = tempfile.mkdtemp(prefix='nl_', dir=ctx.work)
     for si in range(nsys):
         Q = 16
-        kind = si % 6
+        kind = int(rng.integers(0, 6))          # drawn, as are the storage sizes and the file round trip below (no modular coupling)
         L = rng.integers(3, 9, 3) * Q                     # 3..8 length units
         tilt = [int(rng.integers(-L[0] // 2, L[0] // 2 + 1)) if rng.random() < .5 else 0 for _ in range(3)]
         v = [[int(L[0]), 0, 0], [tilt[0], int(L[1]), 0], [tilt[1], tilt[2], int(L[2])]]
@@ -137,14 +137,14 @@ def run(ctx):
         s = _system(am, (V * 4).tolist(), (np.array(o) * 4).tolist(), pbc, P, QQ)
         base = {'v': (V * 4).tolist(), 'o': (np.array(o) * 4).tolist(), 'pbc': pbc, 'pos': P.tolist(), 'cut2': cutn * cutn}
         variants = [('default', {})]
-        if si % 3 == 0:
+        if rng.random() < .34:
             variants += [('init1delta1', {'initialsize': 1, 'deltasize': 1}), ('init2delta3', {'initialsize': 2, 'deltasize': 3}),
                          ('init3delta2', {'initialsize': 3, 'deltasize': 2})]
         for name, kw in variants:
             try:
                 nl = am.NeighborList(system=s, cutoff=cutn / QQ, **kw)
                 recs.append(dict(base, ev='nlist', nl=_lists(nl), coord=[int(x) for x in nl.coord], tag='%s:%d:k%d' % (name, si, kind)))
-                if name == 'default' and si % 4 == 0:
+                if name == 'default' and rng.random() < .3:
                     fn = os.path.join(tmpd, 'nl.txt')
                     nl.dump(fn)
                     for how in ('path', 'text'):
